@@ -1,8 +1,11 @@
 #!/bin/sh
-# seedrun.sh <worktree> <PROP> <n> [demo cargo args]: mutcheck + independent confirmation of one seeded change
-WT="$1"; P="$2"; N="$3"; EXTRA="$4"
-mkdir -p /verif/seeded/$P-$N
-cd /verif && ./mutcheck "$WT/seed_${P}_$N.diff" "$P" > /verif/seeded/$P-$N/mutcheck.log 2>&1
-echo "mutcheck rc=$?" >> /verif/seeded/$P-$N/mutcheck.log
-/verif/confirm_seed.sh "$WT" "$P" "$N" "$EXTRA" > /verif/seeded/$P-$N/confirm.log 2>&1
-echo "$P-$N: $(grep -E '^(OK|VIOLATION|mutcheck)' /verif/seeded/$P-$N/mutcheck.log | head -3 | tr '\n' ' ') | $(cat /verif/seeded/$P-$N/confirm.json 2>/dev/null)"
+# seedrun.sh <worktree> <PROP> <n> [demo cargo args] [props to check, default <PROP>]
+# mutcheck (for each listed property) + independent confirmation of one seeded change
+WT="$1"; P="$2"; N="$3"; EXTRA="$4"; PROPS="${5:-$P}"
+D=/verif/seeded/$P-$N; mkdir -p $D
+for Q in $PROPS; do
+  (cd /verif && ./mutcheck "$WT/seed_${P}_$N.diff" "$Q" > $D/mutcheck_$Q.log 2>&1; echo "mutcheck rc=$?" >> $D/mutcheck_$Q.log)
+done
+/verif/confirm_seed.sh "$WT" "$P" "$N" "$EXTRA" > $D/confirm.log 2>&1
+for Q in $PROPS; do echo "$P-$N vs $Q: $(grep -E '^(OK|VIOLATION|mutcheck)' $D/mutcheck_$Q.log | head -2 | cut -c1-140 | tr '\n' ' ')"; done
+echo "$P-$N confirm: $(cat $D/confirm.json 2>/dev/null)"
